@@ -197,22 +197,24 @@ def plan(tier, seed):
                 add("enum", sizes=lay, obj=obj)
             else:
                 for mv in MOVES:
-                    add("enum", sizes=lay, obj=obj, move=mv)
+                    for _ in range(2):
+                        add("enum", sizes=lay, obj=obj, move=mv)
     # --- convergence block: sum c/x, tight tolerances, generous budget
     lays_c = _layouts(3) + [[4], [5], [6], [1, 5], [4, 4], [2, 3, 4], [6, 6, 6], [5, 1, 6]] if quick else _layouts(6)
     for lay in lays_c:
         for mv in MOVES:
             for b in (["ss", "vv"] if quick else ["ss", "vv", "sv", "vs", "default"]):
-                add("conv", sizes=lay, obj="invsum", hist="conv", move=mv, bounds=b)
+                for _ in range(1 if quick else 2):
+                    add("conv", sizes=lay, obj="invsum", hist="conv", move=mv, bounds=b)
     # --- named corners
     for c in CORNERS:
-        for _ in range(8 if quick else 60):
+        for _ in range(8 if quick else 100):
             add("corner", **c)
     # --- random block
-    for _ in range(800 if quick else 12000):
+    for _ in range(1500 if quick else 25000):
         add("rand")
     # --- beyond the enumerated bound: up to 5 signals of up to 12 entries
-    for _ in range(80 if quick else 3000):
+    for _ in range(150 if quick else 5000):
         add("big", big=True)
     return cases
 
@@ -729,8 +731,8 @@ def run_case(case, ctx):
                 if len(D) >= 2:
                     # evidence for the iteration budget: responses used beyond ceil(max|x0-x*|/move)
                     over = nresp - int(math.ceil(float(np.max(np.abs(x0 - 0.5 * (xs + xl)))) / move))
-                    ctx.count("conv_iterations_over_distance:" + ("<=1" if over <= 1 else "2" if over == 2 else
-                                                                  "3" if over == 3 else "4-6" if over <= 6 else ">6"))
+                    ctx.count("conv_iterations_over_distance:" + ("<=1" if over <= 1 else "2-3" if over <= 3 else "4-6" if over <= 6 else
+                                                                  "7-15" if over <= 15 else "16-30" if over <= 30 else ">30"))
                     over_max = over
         ctx.count("conv_" + conv)
 
